@@ -102,7 +102,7 @@ def stft_histories(run, tier, rng):
             hists = [h for i, h in enumerate(hists) if i % 3 == 0]
         for _ in range(60 if tier == "quick" else 400):
             hists.append([rng.choice(alpha) for _ in range(12)])
-        for h in hists:
+        for hi, h in enumerate(hists):
             c = stubs.make_stft(L, S, st)
             rec = T.Recorder(c)
             for op in h:
@@ -115,18 +115,27 @@ def stft_histories(run, tier, rng):
             fresh = stubs.make_stft(L, S, st)
             vals_used, vals_fresh = [], []
             xr = nprng.randn(3 * L + S + 1)
-            # a whole-signal call first: result (values AND dtype) as a new instance gives it
+            def chunked_probe(xv):
+                p0 = 0
+                for cpos in (1, max(1, L // 2 - 1), L, 3 * L + S + 1):
+                    vals_used.append(c.compute_chunk(xv[p0:cpos]))
+                    vals_fresh.append(fresh.compute_chunk(xv[p0:cpos]))
+                    p0 = cpos
+                vals_used.append(c.finalize())
+                vals_fresh.append(fresh.finalize())
+            # (the same samples also as byte-swapped single precision: to numpy another dtype again, and the result's
+            # dtype must be what a new instance gives for it, whatever dtypes earlier utterances had; for every other
+            # history that probe comes first, right after the history)
+            if hi % 2:
+                chunked_probe(xr.astype(">f4"))
+            # a whole-signal call: result (values AND dtype) as a new instance gives it
             fu, ff = c.compute_full(xr), stubs.make_stft(L, S, st).compute_full(xr)
             if fu.dtype != ff.dtype or fu.shape != ff.shape or fu.tobytes() != ff.tobytes():
                 run.violation({"kind": "stft_compute_full_differs_from_fresh_instance", "L": L, "S": S, "style": st,
                                "history": [list(o) for o in h], "used_dtype": str(fu.dtype), "fresh_dtype": str(ff.dtype)})
-            p0 = 0
-            for cpos in (1, max(1, L // 2 - 1), L, 3 * L + S + 1):
-                vals_used.append(c.compute_chunk(xr[p0:cpos]))
-                vals_fresh.append(fresh.compute_chunk(xr[p0:cpos]))
-                p0 = cpos
-            vals_used.append(c.finalize())
-            vals_fresh.append(fresh.finalize())
+            chunked_probe(xr)
+            if not hi % 2:
+                chunked_probe(xr.astype(">f4"))
             rec.tap.take()
             # then a probe utterance of tokens on the used instance ...
             u = rec.utt + 1
